@@ -1,0 +1,64 @@
+//go:build verif
+
+// Contracts for deductive verification (comment-only; no declarations). Checked by
+// /verif/govc against the code of this package on every run. See /verif/DESIGN.md.
+
+package types
+
+
+// DecryptSymmetricKey (C07 recipient binding, C09 totality, C11 dispatch)
+//@ pure func DigestAlg(ek *EncryptedKey) int {
+//@   return ek.EncryptionMethod.DigestMethod == nil ? 1
+//@        : (ek.EncryptionMethod.DigestMethod.Algorithm == "" || ek.EncryptionMethod.DigestMethod.Algorithm == MethodSHA1) ? 1
+//@        : ek.EncryptionMethod.DigestMethod.Algorithm == MethodSHA256 ? 256
+//@        : ek.EncryptionMethod.DigestMethod.Algorithm == MethodSHA512 ? 512 : 0
+//@ }
+//@ pure func IsOAEP(alg string) bool {
+//@   return alg == MethodRSAOAEP || alg == MethodRSAOAEP2
+//@ }
+
+// A key store never holds a typed-nil RSA key (configuration invariant).
+//@ pure func KeyOK(k crypto.PrivateKey) bool {
+//@   return k is *rsa.PrivateKey ==> k.(*rsa.PrivateKey) != nil
+//@ }
+
+//@ func (ek *EncryptedKey) DecryptSymmetricKey(cert *tls.Certificate) (blk cipher.Block, err error)
+//@   requires ek != nil && cert != nil
+//@   requires keyok: KeyOK(cert.PrivateKey)
+//@   safety [C09]
+//@   frame [C17]
+//@   assigns nothing
+//@   ensures [C09] xor: (blk != nil) != (err != nil)
+//@   ensures [C07] nocert: len(cert.Certificate) < 1 ==> err != nil
+//@   ensures [C07] recipient: err == nil && ek.X509Data != "" ==> b64ok(ek.X509Data) && bytesEq(cert.Certificate[0], b64dec(ek.X509Data))
+//@   ensures [C11] rsaonly: err == nil ==> cert.PrivateKey is *rsa.PrivateKey && b64ok(ek.CipherValue)
+//@   ensures [C11] oaep: err == nil && IsOAEP(ek.EncryptionMethod.Algorithm) ==> DigestAlg(ek) != 0
+//@        && oaepOK(DigestAlg(ek), cert.PrivateKey.(*rsa.PrivateKey), b64dec(ek.CipherValue))
+//@        && aesKeyOf(blk) == oaepOf(DigestAlg(ek), cert.PrivateKey.(*rsa.PrivateKey), b64dec(ek.CipherValue))
+//@   ensures [C11] pkcs1: err == nil && ek.EncryptionMethod.Algorithm == MethodRSAv1_5 ==>
+//@        pkcs1OK(cert.PrivateKey.(*rsa.PrivateKey), b64dec(ek.CipherValue))
+//@        && aesKeyOf(blk) == pkcs1Of(cert.PrivateKey.(*rsa.PrivateKey), b64dec(ek.CipherValue))
+//@   ensures [C11] transport: err == nil ==> IsOAEP(ek.EncryptionMethod.Algorithm) || ek.EncryptionMethod.Algorithm == MethodRSAv1_5
+//@   ensures [C11] aes: err == nil ==> blockSizeOf(blk) == 16
+
+//@ func debugKeyFp(keyBytes []byte) (result string)
+//@   safety [C09]
+//@   assigns nothing
+//@   loop 0
+//@     invariant [C09] idx: 0 <= idx && idx <= len(sum)
+
+// DecryptBytes (C09 totality on attacker-length ciphertext, C11 dispatch and key placement)
+//@ pure func IsGCM(alg string) bool {
+//@   return alg == MethodAES128GCM || alg == MethodAES192GCM || alg == MethodAES256GCM
+//@ }
+//@ pure func IsCBC(alg string) bool {
+//@   return alg == MethodAES128CBC || alg == MethodAES256CBC || alg == MethodTripleDESCBC
+//@ }
+//@ func (ea *EncryptedAssertion) DecryptBytes(cert *tls.Certificate) (out []byte, err error)
+//@   requires ea != nil && cert != nil
+//@   requires keyok: KeyOK(cert.PrivateKey)
+//@   safety [C09]
+//@   frame [C17]
+//@   assigns nothing
+//@   ensures [C11] method: err == nil ==> IsGCM(ea.EncryptionMethod.Algorithm) || IsCBC(ea.EncryptionMethod.Algorithm)
+//@   ensures [C11] data: err == nil ==> b64ok(ea.CipherValue)
